@@ -160,15 +160,17 @@ def theorems(ctx):
     ctx.theorems("props/C14_lazy.vo", THEOREMS)
     # specialisation key: proofs over kernel K11 (method names) as translated on this run; the plugin fails
     # closed unless hash_type_args is md5(",".join(map(type_name, type_args))).hexdigest()
-    ctx.theorems("props/C14_speckey.vo", ["C14_spec_key_inj", "C14_join_inj"], kernels=["K11"])
+    ctx.theorems("props/C14_speckey.vo", ["C14_spec_key_inj", "C14_join_inj", "C14_enc_name_differs_iff"], kernels=["K11"])
     spec_key_tie(ctx)
     # the stub / compile / raise decision and the stub's re-build arguments, over kernel K114a (builder.py, this run)
-    # and the on-demand compilation of nested dataclasses, over kernel K114b (pack.py / unpack.py, this run)
+    # the on-demand compilation of nested dataclasses, over kernel K114b (pack.py / unpack.py, this run), and the
+    # installation of a generated method, over kernel K114c (add_(un)pack_method / _add_setattr_method)
     ctx.theorems("props/C14_decision.vo", ["C14_source_lazy_test", "C14_source_unresolved_test", "C14_build_follows_source",
                                            "C14_stub_step_follows_source", "C14_source_ondemand_test",
                                            "C14_deps_step_follows_source", "C14_build_ondemand_follows_source",
-                                           "C14_creation_never_unresolved", "C14_creation_unresolved_raises"],
-                 kernels=["K114a", "K114b"])
+                                           "C14_creation_never_unresolved", "C14_creation_unresolved_raises",
+                                           "C14_source_install_tests", "C14_install_follows_source"],
+                 kernels=["K114a", "K114b", "K114c"])
     ctx.coqchk(["VerifProps.C14_lazy", "VerifProps.C14_speckey", "VerifProps.C14_decision"])      # thorough tier only
 
 
